@@ -656,6 +656,15 @@ func (fc *FnCtx) evalCall(env *specEnv, x *ast.CallExpr) Val {
 		body := fc.evalSpec(&n, x.Args[i])
 		pats := fc.patterns(&n, x.Args[i+1:])
 		return boolV(fmt.Sprintf("(%s (%s) %s)", fname, strings.Join(decls, " "), withPats(body.T, pats)))
+	case "dom":
+		m, k := arg(0), arg(1)
+		if m.Ty != nil {
+			if mt, ok := m.Ty.Underlying().(*types.Map); ok {
+				d, _, _ := fc.mapKeys(mt)
+				return boolV(app("select", app("select", fc.heapGet(env.st, d), m.T), k.T))
+			}
+		}
+		specFail("dom() on sort %s", m.Sort)
 	case "has":
 		m, k := arg(0), arg(1)
 		if m.Ty != nil {
